@@ -20,6 +20,15 @@ for patch in patches:
         subj = subj[:72].rsplit(" ", 1)[0]
     body = "\n\n".join(textwrap.fill(e["what"].strip(), 72) for e in es)
     msg = subj + "\n\n" + body + "\n"
+    applied_path = V + "/fixes/APPLIED.json"
+    applied = json.load(open(applied_path)) if os.path.exists(applied_path) else {}
+    if patch in applied:
+        print(patch, "-> already applied as", applied[patch])
+        for e in es:
+            e["status"] = "fixed"
+            e["commit"] = applied[patch]
+        json.dump(F, open(path, "w"), indent=1)
+        continue
     r = subprocess.run([V + "/tools/applyfix.sh", os.path.join(V, patch), msg], capture_output=True, text=True)
     out = (r.stdout + r.stderr).strip().splitlines()
     print(patch, "->", out[-1] if out else "?")
@@ -28,6 +37,8 @@ for patch in patches:
         print("STOPPING at", patch)
         break
     commit = out[-1].split()[0]
+    applied[patch] = commit
+    json.dump(applied, open(applied_path, "w"), indent=1)
     for e in es:
         e["status"] = "fixed"
         e["commit"] = commit
